@@ -22,11 +22,13 @@
            (T2hProofsGen9: every node is 255 or the value of a leaf below it, and at most every leaf below
            it; 0 / 1 arrays: 0 iff a leaf below is 0) and SetValue in closed form (T2hProofsGen10
            tt_setvalue_spec: v is stored on the walk up to the first node holding <= v, nothing else changes).
-           STILL OPEN: the induction over prepare_values (after the SetValue calls of a set S of leaves a node is
-           unset iff no leaf of S is below it and otherwise holds the minimum over S below it - tt_setvalue_spec
-           is the step), tt_reset (tt_new w h) as the start, and the leaves of hth_new (hth_lookup on a
-           permutation of the grid) = the blocks' values; together they give StateRel for the fresh flags;
-           sort_blocks of a permutation of the grid is the raster order of ht_blocks;
+           Also PROVED: the induction over prepare_values (T2hProofsGen11 setvalue_char, T2hProofsGen12
+           reset_char / prepare_values_char): from ResetEncoding of NewTagTree the trees are characterised by the
+           processed leaves (unset iff no processed leaf below, else the minimum below; low 0, known false).
+           STILL OPEN: the link Char + hth_val_attained / hth_val_below / hth_val_zero_leaf -> StateRel for the
+           fresh flags (drafted in coq/scratch/hthdrgen/T2hProofsGen13.v, initial_state_rel; the draft does not
+           terminate in coqc yet), its leaf hypotheses (hth_lookup on a permutation of the grid gives the block
+           of each position), and sort_blocks of a permutation of the grid = the raster order of ht_blocks;
      (3'') PROVED in T2hProofsGen5 (hth_incl_total / hth_miss_total): on hth_new of ANY band the lookups of
            the walks succeed for every leaf of the grid and every flag array of the right shape (row lengths,
            top level 1 x 1, the virtual parent {0} is read at index 0), the results are the closed forms;
@@ -52,7 +54,8 @@ From V Require Import Common.Base Framing.FrmWriters T2.T2Bio T2.T2TagTree T2.T2
   T2.T2Header J2KGeo.GeoLayers
   T2Ht.T2hModel T2Ht.T2hSpec T2Ht.T2hProofsSmall T2Ht.T2hProofsGlue
   T2Ht.T2hProofsGen1 T2Ht.T2hProofsGen2 T2Ht.T2hProofsGen3 T2Ht.T2hProofsGen4 T2Ht.T2hProofsGen5
-  T2Ht.T2hProofsGen6 T2Ht.T2hProofsGen7 T2Ht.T2hProofsGen8 T2Ht.T2hProofsGen9 T2Ht.T2hProofsGen10.
+  T2Ht.T2hProofsGen6 T2Ht.T2hProofsGen7 T2Ht.T2hProofsGen8 T2Ht.T2hProofsGen9 T2Ht.T2hProofsGen10
+  T2Ht.T2hProofsGen11 T2Ht.T2hProofsGen12.
 
 Definition hth_roundtrip_from_coincide_statement : Prop :=
   hth_classic_coincide_statement -> hth_roundtrip_statement.
